@@ -53,6 +53,10 @@ CHECKS = {
          "Every path text over a structural segment alphabet up to 6 (quick) / 8 (thorough) segments, both families, with every path query and every interleaving of front/back iteration two steps past exhaustion, compared with a list model derived from the text. Exhaustive inside the bound; the scanners branch only on '/', so the bound covers every code path several times over.",
          "Trusted: the '/'-split list model (20 lines), the reference path DFA from /verif/spec deciding domain membership, rustc. Not covered: paths with more segments than the bound (except that iteration code has no length-dependent branch).",
          "DESIGN.md section 6, C12"),
+ "C19": ("exhaustive sweep over all short %XX token sequences (every class of the UTF-8 decoding automaton) in every percent-decodable component, against an octet-level decoding model",
+         "All sequences of up to 3 (quick) / 4 (thorough) tokens over 21-22 tokens covering ASCII, literal non-ASCII, continuation bytes low/high, overlong leads C0/C1/E0, 2/3/4-byte leads, surrogate lead ED A0, beyond-range F4 90 / F5, FF, %2F, %25, for Segment, Host, UserInfo, Query, Fragment of both families, stand-alone and obtained from a parsed URI/IRI (209 k values quick): bytes() equals the model's octets, and chars/len/decode/== str/Deref/into_pct_string terminate and yield the UTF-8 text of well-formed octets and never equate ill-formed octets with well-formed text.",
+         "Trusted: the octet decoder of model/equiv.rs. Two known findings rooted in the pct-str / utf8-decode dependencies are listed in known_findings.json with matchers pinned to the panic site pct-str-2.0.0/src/lib.rs:200 and to the (operation, ill-formed octets, wrong value) signature; any other violation still exits 1.",
+         "DESIGN.md section 6, C19"),
 }
 
 def load_props():
